@@ -430,6 +430,7 @@ func framingRules(c *Ctx, rule string, pkgs []string) {
 			c.Check(ok, rule, pkg+".write|refuses oversized data", w.Pos(call.Pos()), "must-fact not (len(data) > bound)", "data longer than the bound can be written (the 4-byte length would wrap or the peer would refuse it)")
 		}
 		c.Floor(rule, nW, 2, "Write calls in "+pkg+".write")
+		frameWriteRule(c, rule, pkg)
 	}
 	// the sibling copy's constant (the client side of the same wire) agrees
 	if len(pkgs) == 1 {
